@@ -172,13 +172,14 @@ pub fn unfold_uppercase_char(c: u32) -> Vec<u32> {
     crate::unicode::unfold_uppercase_char(c)
 }
 
-/// Closure of a set of inclusive code point intervals under simple case folding.
-pub fn icase_closure(intervals: &[(u32, u32)]) -> Vec<(u32, u32)> {
+/// Closure of a set of inclusive code point intervals under case-insensitive equivalence
+/// (simple case folding in Unicode mode, legacy upper-casing otherwise).
+pub fn icase_closure(intervals: &[(u32, u32)], unicode: bool) -> Vec<(u32, u32)> {
     let mut cps = crate::codepointset::CodePointSet::new();
     for &(first, last) in intervals {
         cps.add(crate::codepointset::Interval { first, last });
     }
-    crate::unicode::add_icase_code_points(cps)
+    crate::unicode::add_icase_code_points_for_mode(cps, unicode)
         .intervals()
         .iter()
         .map(|iv| (iv.first, iv.last))
